@@ -284,4 +284,43 @@ def call (f : Facts) (sse : Bool) (hs : List Text) (reqId : Nat) (es : List Emit
   if sse then readLoop f hs reqId (serverFrames reqId es a) RS.init
   else readJsonBody (answerJson reqId a)
 
+/-! ## handler registration histories
+
+  `RegisterNotificationHandler(m, h)` is `t.notificationHandlers[m] = h`, `UnregisterNotificationHandler(m)` is
+  `delete(t.notificationHandlers, m)` (client.go → streamable_client.go, under `handlersMutex`); `handleSSEResponse`
+  copies that very map when a call's response starts and dispatches with `handlers[notification.Method]`.  A handler
+  instance is a tag (`Nat`); the table is the map as an association list. -/
+
+inductive RegOp where
+  | register (m : Text) (h : Nat)
+  | unregister (m : Text)
+
+abbrev Table := List (Text × Nat)
+
+def tableErase (t : Table) (m : Text) : Table := t.filter (fun kv => kv.1 != m)
+
+def applyReg (t : Table) : RegOp → Table
+  | .register m h => (m, h) :: tableErase t m
+  | .unregister m => tableErase t m
+
+/-- the client's table after a history of registrations on a fresh client -/
+def tableAfter (ops : List RegOp) : Table := ops.foldl applyReg []
+
+/-- `handler, ok := handlers[method]` -/
+def handlerFor : Table → Text → Option Nat
+  | [], _ => none
+  | (k, h) :: rest, m => if k = m then some h else handlerFor rest m
+
+/-- the methods that have a handler (`len(handlers) == 0` is `methods t = []`) -/
+def methods (t : Table) : List Text := t.map Prod.fst
+
+/-- which handler instance ran, for a handler event -/
+def ranBy (t : Table) : Ev → Option Nat
+  | .handled n => handlerFor t n.method
+  | _ => none
+
+/-- one call on a client whose handler table is `t`: the events, each handler invocation with the instance that ran -/
+def callH (f : Facts) (sse : Bool) (t : Table) (reqId : Nat) (es : List Emit) (a : Answer) : List (Ev × Option Nat) :=
+  (call f sse (methods t) reqId es a).map (fun e => (e, ranBy t e))
+
 end Mcp.InCall
